@@ -108,7 +108,6 @@ func gr4j(rainfall data.ND1Float64, pet data.ND1Float64, s0 float64, r0 float64,
 	var R = r0
 
 	var SH1 []float64 = make([]float64, n1)
-	var i = 0
 	for i := 0; i < n1; i++ {
 		SH1[i] = math.Pow((float64)(i+1)/x4, 5.0/2.0)
 	}
@@ -121,12 +120,13 @@ func gr4j(rainfall data.ND1Float64, pet data.ND1Float64, s0 float64, r0 float64,
 	}
 
 	var SH2 = make([]float64, n2)
-	for i := 0; i <= int(x4-1); i++ {
-		SH2[i] = 0.5 * math.Pow((float64)(i+1)/x4, 5.0/2.0)
-	}
-	i++
-	for ; i < n2; i++ {
-		SH2[i] = 1 - 0.5*math.Pow(2-(float64)(i+1)/x4, 5.0/2.0)
+	for i := 0; i < n2; i++ {
+		t := (float64)(i + 1)
+		if t <= x4 {
+			SH2[i] = 0.5 * math.Pow(t/x4, 5.0/2.0)
+		} else {
+			SH2[i] = 1 - 0.5*math.Pow(2-t/x4, 5.0/2.0)
+		}
 	}
 	SH2[n2-1] = 1.0
 	UH2 := make([]float64, n2)
